@@ -22,6 +22,8 @@
 #include <omp.h>
 #include <set>
 #include <sstream>
+#include <sys/wait.h>
+#include <unistd.h>
 #ifndef MODEL_BITS
 #define MODEL_BITS 1
 #endif
@@ -283,6 +285,8 @@ static void queries(const Trie<D>& trie, const std::vector<std::vector<Tup<D>>>&
             all.push_back(t);
             for (auto x : t) keys.insert(x);
         }
+    bool anyNegative = false;
+    for (auto k : keys) anyNegative = anyNegative || k < 0;
     std::size_t cap = 4 * all.size() + 8;
     out.push_back("iter " + listRange<D>(trie.begin(), trie.end(), cap));
     out.push_back("size " + std::to_string(trie.size()));
@@ -321,12 +325,36 @@ static void queries(const Trie<D>& trie, const std::vector<std::vector<Tup<D>>>&
             auto f2 = trie.find(p, fctx);
             out.push_back("find " + str<D>(p) + " " + (f2 == trie.end() ? "-" : str<D>(*f2)));
         }
-        auto lb = trie.lower_bound(p);
-        out.push_back("lower " + str<D>(p) + " " + (lb == trie.end() ? "-" : str<D>(*lb)));
-        auto ub = trie.upper_bound(p);
-        out.push_back("upper " + str<D>(p) + " " + (ub == trie.end() ? "-" : str<D>(*ub)));
+
     }
     BoundsQ<D, D>::run(trie, probes, cap, bctx, hints, out);
+    // lower_bound / upper_bound are not named by the property statement, and they abort (assertion) on some sparse key sets:
+    // they run in a forked child so that an abort cannot take the driver down; where their own preconditions hold only
+    // (no negative key in the trie, no component at INT_MAX, where "sub[0] += 1" overflows)
+    if (!anyNegative) {
+        for (auto& e : out) std::printf("V %s\n", e.c_str());
+        out.clear();
+        std::fflush(stdout);
+        pid_t pid = fork();
+        if (pid == 0) {
+            for (auto& p : probes) {
+                bool ok = true;
+                for (auto x : p) ok = ok && x >= 0 && x < std::numeric_limits<RamDomain>::max();
+                if (!ok) continue;
+                auto lb = trie.lower_bound(p);
+                std::printf("V lower %s %s\n", str<D>(p).c_str(), lb == trie.end() ? "-" : str<D>(*lb).c_str());
+                std::fflush(stdout);
+                auto ub = trie.upper_bound(p);
+                std::printf("V upper %s %s\n", str<D>(p).c_str(), ub == trie.end() ? "-" : str<D>(*ub).c_str());
+                std::fflush(stdout);
+            }
+            std::_Exit(0);
+        }
+        int status = 0;
+        waitpid(pid, &status, 0);
+        if (!(WIFEXITED(status) && WEXITSTATUS(status) == 0))
+            std::printf("O lower_bound/upper_bound aborted (status %d) after the last answer above\n", status);
+    }
     for (unsigned chunks : {1u, 2u, 3u, 7u, 500u}) {
         std::string s;
         auto parts = trie.partition(chunks);
